@@ -8,15 +8,19 @@
 package cache
 
 // Same ghost model as fiber.Storage (fiber_storage.spec), but no faults: memHas[store][key].
-// Entries may expire between calls (observed at Get). The stored value is not modelled.
+// Entries may expire between calls (observed at Get).
+// memVal[store][key]: the value (interface value) last stored under key: Get returns what the last Set stored.
 //@ ghost memHas map[ref]map[string]bool
+//@ ghost memVal map[ref]map[string]ref
 //@ func @memory.(*Storage).Get(s, key) assumed
 //@   modifies memHas
 //@   ensures only-expiry: forallI(r, forallS(k, memHas[r][k] ==> old(memHas[r][k])))
 //@   ensures (result != nil) <==> memHas[s][key]
+//@   ensures returns-stored-value: memHas[s][key] ==> result == memVal[s][key]
 //@ func @memory.(*Storage).Set(s, key, val, ttl) assumed
-//@   modifies memHas
+//@   modifies memHas, memVal
 //@   ensures memHas == old(memHas)[s := old(memHas)[s][key := true]]
+//@   ensures memVal == old(memVal)[s := old(memVal)[s][key := val]]
 //@ func @memory.(*Storage).Delete(s, key) assumed
 //@   modifies memHas
 //@   ensures memHas == old(memHas)[s := old(memHas)[s][key := false]]
